@@ -93,7 +93,7 @@ def stream_multisection_jac(R, tier, seed):
     S1 = R.stream("GeomMultiUnification.jacobian"); S2 = R.stream("GeomMultiJoin.jacobian")
     cc = CoqCases("jmultisec", "MultiSec"); meta = []
     rng = gen.stable_rng(seed, "jmultisec")
-    for nsec in (2, 3):
+    for nsec in (2, 3, 4):
         for shift in (True, False):
             nx = int(rng.integers(2, 4))
             nys = [int(rng.integers(2, 4)) for _ in range(nsec)]
@@ -110,8 +110,14 @@ def stream_multisection_jac(R, tier, seed):
             cid = cc.add("(re (%s) %s :: %s)" % (D.vals(out), arr(o["w_uni_mesh"]), je))
             meta.append((cid, S1, ["uni_mesh"] + jl, {"comp": "GeomMultiUnification", "sections": nsec, "nx": nx, "ny": nys, "shift_uni_mesh": shift}))
             # joining constraint along x (default) and along all axes
-            for dims in ([0], [0, 1, 2]):
-                dim_constr = [np.array([1 if d in dims else 0 for d in range(3)]) for _ in range(nsec - 1)]
+            # the same axes on every shared edge, and DIFFERENT axes from edge to edge (each edge has its own mask: a seeded change
+            # that masked a middle section's left edge with the mask of its right edge was missed while all masks were equal)
+            choices = [[[0]] * (nsec - 1), [[0, 1, 2]] * (nsec - 1)]
+            if nsec >= 3:
+                choices += [[[0], [1]] + [[2]] * (nsec - 3), [[0, 2], [1, 2]] + [[0, 1]] * (nsec - 3)]
+            for per_edge in choices:
+                dims = per_edge
+                dim_constr = [np.array([1 if d in per_edge[e] else 0 for d in range(3)]) for e in range(nsec - 1)]
                 ins2 = {"s%d_join_mesh" % i: meshes[i] for i in range(nsec)}
                 o2, J2, _ = core.run_comp(GeomMultiJoin(sections=sections, dim_constr=dim_constr), ins2)
                 D2 = DJ().lit("npx", nat(nx - 1))
@@ -119,7 +125,7 @@ def stream_multisection_jac(R, tier, seed):
                 terms = []
                 for e in range(nsec - 1):
                     for r in (0, 1):
-                        for d in dims:
+                        for d in per_edge[e]:
                             terms.append("join_sep {npx} %s {m%d} {m%d} %d%%nat %d%%nat" % (nat(nys[e]), e, e + 1, r, d))
                 out2 = "[" + "; ".join(terms) + "]"
                 je2, jl2 = D2.jac_errs(out2, J2, ["section_separation"])
